@@ -60,8 +60,9 @@ class CompileOutcome:
         self.crash = crash  # other exception
 
 
-def compile_recipe(recipe: dict, cfg: dict, builder_kw=None) -> CompileOutcome:
-    """cfg: {"version": int, "scratch_slots": bool|None, "frame_pointers": bool|None, "assemble": bool}"""
+def compile_recipe(recipe: dict, cfg: dict, builder_kw=None, optimize_obj=None) -> CompileOutcome:
+    """cfg: {"version": int, "scratch_slots": bool|None, "frame_pointers": bool|None, "assemble": bool}
+    optimize_obj: an OptimizeOptions instance to use instead of a fresh one (for re-use across programs)"""
     import pyteal as pt
 
     reset_pyteal_state()
@@ -72,7 +73,7 @@ def compile_recipe(recipe: dict, cfg: dict, builder_kw=None) -> CompileOutcome:
             mode_of(recipe),
             version=cfg["version"],
             assembleConstants=bool(cfg.get("assemble", False)),
-            optimize=optimize_of(cfg),
+            optimize=optimize_obj if optimize_obj is not None else optimize_of(cfg),
         )
         return CompileOutcome(teal=teal)
     except pyteal_errors() as e:
@@ -130,7 +131,7 @@ def short_teal(teal: str, n=40) -> str:
 
 
 def cfg_key(cfg: dict) -> str:
-    return "v%d/ss=%s/fp=%s%s" % (cfg["version"], cfg.get("scratch_slots"), cfg.get("frame_pointers"), "/asm" if cfg.get("assemble") else "")
+    return "v%d/ss=%s/fp=%s%s%s" % (cfg["version"], cfg.get("scratch_slots"), cfg.get("frame_pointers"), "/asm" if cfg.get("assemble") else "", "/reused-options" if cfg.get("reuse_options") else "")
 
 
 def boundary_violations(trace, sigs) -> List[str]:
